@@ -45,7 +45,7 @@ def execute(case):
     py7zr = import_py7zr()
     hist, opts, wd = case
     try:
-        return wsession.run_history(py7zr, hist, wd, ref_reader=wsession.ref_reader, **opts)
+        return wsession.run_history(py7zr, hist, wd, ref_reader=wsession.ref_reader, **{k: v for k, v in opts.items() if k != "base_id"})
     finally:
         shutil.rmtree(wd, ignore_errors=True)
 
@@ -145,6 +145,7 @@ def run(tier, rep, ev):
             h.append({"op": "close"})
         opts = {"target": R.choice(["path", "path", "stream", "stream-asleft", "stream-end"]), "password": b[2], "base": layouts.base_from_members(b[1], b[3]),
                 "filters_by_session": {s: (R.choice(CHAINS) if b[2] is None else None) for s in (2, 3)}}
+        opts["base_id"] = b[0][:600]
         cases.append((h, opts, os.path.join(base, f"b{nbase}")))
         ev.sample({"foreign_base": b[0][:200]}, cap=10)
     outs = sandbox.run_cases(execute, cases, timeout=90, nproc=16)
@@ -154,6 +155,8 @@ def run(tier, rep, ev):
         ev.case(desc, nontrivial=sum(1 for x in h if x["op"] == "open") + (1 if "base" in opts else 0) >= 2)
         if o.status == "ok" and o.value and o.value[0].get("e") == "skip":
             skipped["py7zr-cannot-read-base"] += 1
+            if os.environ.get("VERIF_DEBUG_SKIPS"):
+                print("SKIP", o.value[0].get("why"), opts.get("base_id"))
         elif o.status == "ok":
             traces.append(o.value)
             oo = dict(opts)
